@@ -1024,7 +1024,7 @@ vf::Spec spec(vf::Tier t)
     build_cells();
     vf::Spec s;
     s.n_enum     = cells().size();
-    s.n_random   = (t == vf::Tier::thorough ? 40 : 2) * cells().size();
+    s.n_random   = (t == vf::Tier::thorough ? 16 : 2) * cells().size();
     s.batch      = 1;
     s.timeout_s  = 600;
     s.exhaustive = true;
